@@ -145,28 +145,33 @@ type St12 struct {
 	DiskSize  string `json:"disk-size"`
 	Task2     bool   `json:"task2"`
 	Ks        int    `json:"Ks"`
+	// k/s before the first non-ASCII letter, and after it
+	Kaese  string `json:"käse"`
+	Kevin  int    `json:"Kévin"`
+	Skal   bool   `json:"skål"`
+	Eleves int    `json:"élèves"`
 }
 
 // omitempty on every kind, arrays included ([2]int{0,0} is not empty, [0]int is)
 type St13 struct {
-	Z   [2]int            `json:"z,omitempty"`
-	ZS  [1]string         `json:"zs,omitempty"`
-	E   [0]int            `json:"e,omitempty"`
-	B   bool              `json:"b,omitempty"`
-	F   float64           `json:"f,omitempty"`
-	U   uint8             `json:"u,omitempty"`
-	S   string            `json:"s,omitempty"`
-	P   *int              `json:"p,omitempty"`
-	SL  []int             `json:"sl,omitempty"`
-	M   map[string]int    `json:"m,omitempty"`
-	I   any               `json:"i,omitempty"`
-	ST  In1               `json:"st,omitempty"`
-	AP  [2]*int           `json:"ap,omitempty"`
-	AS  [1]In1            `json:"as,omitempty"`
-	BS  []byte            `json:"bs,omitempty"`
-	MI  map[int][2]bool   `json:"mi,omitempty"`
-	FS  float32           `json:"fs,omitempty,string"`
-	Neg float64           `json:"neg,omitempty"`
+	Z   [2]int          `json:"z,omitempty"`
+	ZS  [1]string       `json:"zs,omitempty"`
+	E   [0]int          `json:"e,omitempty"`
+	B   bool            `json:"b,omitempty"`
+	F   float64         `json:"f,omitempty"`
+	U   uint8           `json:"u,omitempty"`
+	S   string          `json:"s,omitempty"`
+	P   *int            `json:"p,omitempty"`
+	SL  []int           `json:"sl,omitempty"`
+	M   map[string]int  `json:"m,omitempty"`
+	I   any             `json:"i,omitempty"`
+	ST  In1             `json:"st,omitempty"`
+	AP  [2]*int         `json:"ap,omitempty"`
+	AS  [1]In1          `json:"as,omitempty"`
+	BS  []byte          `json:"bs,omitempty"`
+	MI  map[int][2]bool `json:"mi,omitempty"`
+	FS  float32         `json:"fs,omitempty,string"`
+	Neg float64         `json:"neg,omitempty"`
 }
 
 // Al: a struct and a pointer to its first field have the same address but different types -
